@@ -109,7 +109,12 @@ Clear ==
     /\ UNCHANGED <<cap, gcs, xgcs>>
     /\ Rec("clear", 0, "no")
 
-Next == \/ \E kd \in Kinds : AddItem(kd)
+(* the three ways an add_item() block can go, as separate actions so that coverage names them *)
+AddPlain(kd) == ~ShouldGC(kd.k) /\ AddItem(kd)
+AddAfterGC(kd) == ShouldGC(kd.k) /\ Free < 1 /\ AddItem(kd)      \* collection before the first item of the block
+AddMidGC(kd) == ShouldGC(kd.k) /\ Free = 1 /\ AddItem(kd)        \* collection after JStar items of the block
+
+Next == \/ \E kd \in Kinds : AddPlain(kd) \/ AddAfterGC(kd) \/ AddMidGC(kd)
         \/ \E i \in 1..MaxBlocks : RemoveItem(i)
         \/ GarbageCollect \/ Clear
 Spec == Init /\ [][Next]_vars
